@@ -46,7 +46,7 @@ def tu():
     return s
 
 
-GH = 'g_turn, g_pos, g_done, g_iter, g_last, g_called[0], g_ok[0], g_len[0], g_ncalls[0], g_called[1], g_ok[1], g_len[1], g_ncalls[1], vf_exc, vf_exc_counter, g_exc_obj, g_exc_type'
+GH = 'g_turn, g_pos, g_done, g_iter, g_last, g_called[0], g_ok[0], g_len[0], g_ncalls[0], g_ae[0], g_re[0], g_lp[0], g_called[1], g_ok[1], g_len[1], g_ncalls[1], g_ae[1], g_re[1], g_lp[1], vf_exc, vf_exc_counter, g_exc_obj, g_exc_type'
 
 
 def loop_inv(turn, extra='', locals_assigned=''):
@@ -56,7 +56,11 @@ def loop_inv(turn, extra='', locals_assigned=''):
             ' && OFF(CUR(in)) >= OFF(__CPROVER_loop_entry(CUR(in))) && OFF(CUR(in)) <= g_n %s)') % (GH, locals_assigned, turn, extra)
 
 
-def spec_for(op, a, m):
+# C11 premise through a counted loop: once a consuming body has succeeded the cursor is strictly past the loop entry
+C11_INV = '/*@IF C11@*/ && ((g_c[0] && g_iter > 0) ==> OFF(CUR(in)) > OFF(__CPROVER_loop_entry(CUR(in)))) && g_ncalls[0] == g_iter/*@FI@*/'
+
+
+def spec_for(op, a, m, tq):
     """returns (stub spec or callable, post clauses, loops, ghost)"""
     P = ('C09',)
     A_ = str(a)
@@ -66,14 +70,14 @@ def spec_for(op, a, m):
         post = [E('!vf_exc.pending ==> (RET == (g_last == 0 && g_ok[0]))', 'UNTIL-ENDS-WITH-COND', P),
                 E('(!vf_exc.pending && !RET) ==> (g_last == 1 && !g_ok[1])', 'UNTIL-FAILS-ONLY-WHEN-BODY-FAILS', P),
                 E('(!vf_exc.pending && RET) ==> OFF(CUR(in)) == g_pos', 'UNTIL-CONSUMED', P)]
-        loops = {(r'internal::until<.*>::match<', 1): loop_inv('0')}
+        loops = {(r'internal::until<.*>::match<', 1): loop_inv('0', c11_loop_inv(tq, 2))}
         return rule_stub(spec), post, loops, {}
     if op == 'until1':
         spec = {0: dict(A=A_, M='0', next_ok='T_NONE', next_fail='0', pos_fail='same')}
         post = [E('!vf_exc.pending ==> (RET == (g_last == 0 && g_ok[0]))', 'UNTIL-ENDS-WITH-COND', P),
                 E('(!vf_exc.pending && !RET) ==> (g_pos == g_n && g_called[0] && !g_ok[0])', 'UNTIL-FAILS-ONLY-AT-END-OF-INPUT', P),
                 E('(!vf_exc.pending && RET) ==> OFF(CUR(in)) == g_pos', 'UNTIL-CONSUMED', P)]
-        loops = {(r'internal::until<.*>::match<', 1): loop_inv('0', '&& CNT_LOOP_OK(in)')}
+        loops = {(r'internal::until<.*>::match<', 1): loop_inv('0', '&& CNT_LOOP_OK(in)' + c11_loop_inv(tq, 1))}
         ghost = {(r'internal::until<.*>::match<', 1): '{ g_pos = g_pos + 1; }'}   # any: one byte further
         return rule_stub(spec), post, loops, ghost
     if op.startswith('repopt'):
@@ -81,7 +85,7 @@ def spec_for(op, a, m):
         spec = {0: dict(A=A_, M='0', next_ok='0', next_fail='T_NONE', done_on_fail=True, pos_fail='same',
                         requires=[R('g_iter < %d' % n, 'stub-at-most-Max-calls', P)])}
         post = [E('!vf_exc.pending ==> (RET == 1 && (g_done == 1 || g_iter == %d) && OFF(CUR(in)) == g_pos)' % n, 'REPOPT-GREEDY-UP-TO-MAX', P)]
-        loops = {(r'internal::rep_opt<.*>::match<', 1): loop_inv('0', '&& i == g_iter && i <= %d' % n, ', i')}
+        loops = {(r'internal::rep_opt<.*>::match<', 1): loop_inv('0', '&& i == g_iter && i <= %d /*@IF C11@*/&& g_ncalls[0] == g_iter/*@FI@*/' % n, ', i')}
         return rule_stub(spec), post, loops, {}
     if op.startswith('rep') and not op.startswith('repopt'):
         n = int(op[3:])
@@ -90,7 +94,7 @@ def spec_for(op, a, m):
         post = [E('!vf_exc.pending ==> (RET == (g_iter == %d && g_done == 0))' % n, 'REP-EXACTLY-CNT', P),
                 E('(!vf_exc.pending && !RET) ==> g_done == 1', 'REP-FAILS-ONLY-WHEN-BODY-FAILS', P),
                 E('(!vf_exc.pending && RET) ==> OFF(CUR(in)) == g_pos', 'REP-CONSUMED', P)]
-        loops = {(r'internal::rep<.*>::match<', 1): loop_inv('0', '&& i == g_iter && i <= %d' % n, ', i')}
+        loops = {(r'internal::rep<.*>::match<', 1): loop_inv('0', '&& i == g_iter && i <= %d' % n + C11_INV, ', i')}
         return rule_stub(spec), post, loops, {}
     if op.startswith('rmm'):
         mn, mx = int(op[3]), int(op[4])
@@ -108,8 +112,8 @@ def spec_for(op, a, m):
                 E('(!vf_exc.pending && RET) ==> OFF(CUR(in)) == g_pos', 'RMM-CONSUMED', P)]
         loops = {}
         fn = r'internal::rep_min_max<.*>::match<'
-        loops[(fn, 1)] = loop_inv('0', '&& i == g_iter && i <= %d' % mn, ', i')
-        loops[(fn, 2)] = loop_inv('0', '&& i_2 == g_iter && i_2 >= %d && i_2 <= %d' % (mn, mx), ', i_2')
+        loops[(fn, 1)] = loop_inv('0', '&& i == g_iter && i <= %d' % mn + C11_INV, ', i')
+        loops[(fn, 2)] = loop_inv('0', '&& i_2 == g_iter && i_2 >= %d && i_2 <= %d /*@IF C11@*/&& g_ncalls[0] == g_iter/*@FI@*/' % (mn, mx), ', i_2')
         return mk, post, loops, {}
     if op == 'ite':
         spec = {0: dict(A=A_, M='0', next_ok='1', next_fail='2', pos_fail='same'),
@@ -135,24 +139,34 @@ def spec_for(op, a, m):
     raise KeyError(op)
 
 
+# documented number of calls of the body for the counted repetitions (rep_min_max: Max calls and the not_at lookahead)
+BOUND = {'rep3': 3, 'rep1': 1, 'rep42': 42, 'repopt3': 3, 'repopt1': 1, 'rmm13': 4, 'rmm03': 4, 'rmm22': 3}
+NSUB = {'until1': 1, 'until2': 2, 'ite': 3, 'strict': 2, 'starstrict': 2}
+
+
 def jobs(tier):
     out = []
+    TR = traits_of(NAME, OPS)
+    for op in OPS:
+        NSUB.setdefault(op, 1)
     for op, a, m, tr in all_roots():
         if tr == 'lazy' and tier != 'thorough' and not (a == 1 and m == 0):
             continue
         if op in ('rep1', 'repopt1', 'rmm22') and tier != 'thorough' and not (a == 1):
             continue
-        stub, post, loops, ghost = spec_for(op, a, m)
+        stub, post, loops, ghost = spec_for(op, a, m, TR[op])
         con = Contract(comb_requires(), comb_assigns())
         for c in comb_common(m):
             con.add(c)
         for c in post:
             con.add(c)
+        for c in c11_premises(TR[op], NSUB[op], BOUND.get(op)):
+            con.add(c)
         con.add(E('vf_canary', 'canary_exit'))
         stubs = [(r'^bool vf::R<\d+>::match<', stub)]
         if op == 'until1':
             stubs += g_pos.pos_stubs()
-        j = Job(rname(op, a, m, tr), NAME, rname(op, a, m, tr), con, ('C09', 'C02', 'C05'), stubs=stubs, loops=loops,
+        j = Job(rname(op, a, m, tr), NAME, rname(op, a, m, tr), con, ('C09', 'C02', 'C05', 'C11'), stubs=stubs, loops=loops,
                 prelude=comb_prelude(tr) + g_pos.PRE_STUB,
                 harness=comb_harness('vf_' + INPUT_TYPES[(tr, 'lf_crlf')], tr, 'w_ret = $ENTRY(&in)'),
                 expect_fail_canary=('canary_exit',),
